@@ -1466,27 +1466,35 @@ or replaced since the Dwarf was opened.
 }
 
 
+namespace
+{
+  enum class find_attribute_result
+    {
+      not_found = 0,
+      found,
+      found_integrated,
+    };
+
+  std::pair <find_attribute_result, std::unique_ptr <value_die>>
+  find_attribute (Dwarf_Die die, int atname, doneness d,
+		  Dwarf_Attribute *ret_at,
+		  std::shared_ptr <dwfl_context> dwctx);
+}
+
 std::unique_ptr <value_str>
 op_name_die::operate (std::unique_ptr <value_die> a) const
 {
-  if (a->is_cooked ())
-    {
-      // On cooked DIE's, `name` integrates.
-      const char *name = dwarf_diename (&a->get_die ());
-      if (name != nullptr)
-	return std::make_unique <value_str> (name, 0);
-      else
-	return nullptr;
-    }
-  // Unfortunately there's no non-integrating dwarf_diename
-  // counterpart.
-  else if (dwarf_hasattr (&a->get_die (), DW_AT_name))
-    {
-      Dwarf_Attribute attr = dwpp_attr (a->get_die (), DW_AT_name);
-      return std::make_unique <value_str> (dwpp_formstring (attr), 0);
-    }
-  else
+  // On cooked DIE's, `name` integrates.  Look the attribute up the
+  // same way @AT_name does, so that the two agree: dwarf_diename
+  // gives up after 16 hops and doesn't look into DW_AT_specification
+  // of a DIE that has DW_AT_abstract_origin as well.
+  Dwarf_Attribute attr;
+  if (find_attribute (a->get_die (), DW_AT_name, a->get_doneness (),
+		      &attr, nullptr).first
+      == find_attribute_result::not_found)
     return nullptr;
+
+  return std::make_unique <value_str> (dwpp_formstring (attr), 0);
 }
 
 std::string
@@ -1690,13 +1698,6 @@ Takes an attribute on TOS and yields a cooked version thereof.
 
 namespace
 {
-  enum class find_attribute_result
-    {
-      not_found = 0,
-      found,
-      found_integrated,
-    };
-
   // Return whether the attribute was found.
   //
   // If found or found_integrated, and if RET is non-nullptr, prime
